@@ -251,3 +251,60 @@ def parse_printed_duration(text):
             total += Fraction(val.replace(",", ".")) * UNIT_US[unit]
     us = int(round(total))
     return -us if neg else us
+
+
+# --------------------------------------------------------------------------
+# the documented strftime/strptime subset: %Y %m %d %j %H %M %S %F %X %z %s
+
+def render_strf(fmt, f, off, t_us):
+    """Text of civil fields f (zone offset `off` minutes, instant t_us) under
+    a POSIX-style format; None if the year cannot be printed as %Y."""
+    out = []
+    i = 0
+    while i < len(fmt):
+        ch = fmt[i]
+        if ch != "%" or i + 1 >= len(fmt):
+            out.append(ch)
+            i += 1
+            continue
+        d = fmt[i + 1]
+        i += 2
+        if d in "YF":
+            if not 0 <= f["y"] <= 9999:
+                return None
+        if d == "Y":
+            out.append("%04d" % f["y"])
+        elif d == "m":
+            out.append("%02d" % f["m"])
+        elif d == "d":
+            out.append("%02d" % f["d"])
+        elif d == "j":
+            out.append("%03d" % f["doy"])
+        elif d == "H":
+            out.append("%02d" % f["H"])
+        elif d == "M":
+            out.append("%02d" % f["M"])
+        elif d == "S":
+            out.append("%02d" % f["S"])
+        elif d == "F":
+            out.append("%04d-%02d-%02d" % (f["y"], f["m"], f["d"]))
+        elif d == "X":
+            out.append("%02d:%02d:%02d" % (f["H"], f["M"], f["S"]))
+        elif d == "z":
+            out.append("%s%02d%02d" % ("-" if off < 0 else "+",
+                                       abs(off) // 60, abs(off) % 60))
+        elif d == "s":
+            out.append("%d" % (t_us // 10 ** 6))
+        else:
+            raise ValueError("directive %%%s not modelled" % d)
+    return "".join(out)
+
+
+def split_printed_numbers(text):
+    """The numbers of a printed duration under a y/m/d/h/M/s print format,
+    and its sign."""
+    import re
+    neg = text.startswith("-")
+    nums = [float(x) for x in re.findall(r"\d+(?:\.\d+)?(?:e[-+]?\d+)?",
+                                         text)]
+    return neg, nums
